@@ -117,6 +117,18 @@ impl Runner {
             res.push(format!("{};{};{};{};{}", name, r_fresh.0, r_fresh.1, r_fresh.2 as u8, hist));
         }
         verif::set_recording(false);
+        // C04: the optimal matcher with prefix preference off / on (same case otherwise)
+        let ppo = {
+            let mut off = cfg.clone();
+            off.prefer_prefix = false;
+            let mut on = cfg.clone();
+            on.prefer_prefix = true;
+            let mut m = Matcher::new(off);
+            let a = catch_unwind(AssertUnwindSafe(|| m.fuzzy_match(h, n))).ok().flatten();
+            let mut m = Matcher::new(on);
+            let b = catch_unwind(AssertUnwindSafe(|| m.fuzzy_match(h, n))).ok().flatten();
+            format!("{}/{}", a.map(|x| x.to_string()).unwrap_or("n".into()), b.map(|x| x.to_string()).unwrap_or("n".into()))
+        };
         let ext: Vec<String> = {
             let mut set = BTreeSet::new();
             for &ch in &c.hay {
@@ -128,7 +140,7 @@ impl Runner {
         };
         writeln!(
             self.out,
-            "M cfg={} hr={} nr={} hay={} needle={} ext={} nn={} res={}",
+            "M cfg={} hr={} nr={} hay={} needle={} ext={} nn={} ppo={} res={}",
             c.cfg,
             if c.hr_ascii { "A" } else { "U" },
             if c.nr_ascii { "A" } else { "U" },
@@ -136,6 +148,7 @@ impl Runner {
             hex_cps(&c.needle),
             if ext.is_empty() { "-".to_string() } else { ext.join(",") },
             nn as u8,
+            ppo,
             res.join("|")
         )
         .unwrap();
